@@ -33,6 +33,16 @@ OPS = [
     ('and-left', r'([\w.()&*!]+) && ([\w.()&*!]+)', r'\1'), ('and-right', r'([\w.()&*!]+) && ([\w.()&*!]+)', r'\2'),
     ('stmt-drop', r'^\s*(self|other|[a-z_]+)(\.[a-z_]+)+\(.*\);\s*$', ''),
     ('break->continue', r'\bbreak;', 'continue;'),
+    ('block-return', r'^(\s*)(if|for|while) ([^{]*)\{\s*$', r'\1\2 \3{ return;'),
+    ('stmt->return', r'^(\s*)(self|other|[a-z_]+)(\.[a-z_]+)+\(.*\);\s*$', r'\1return;'),
+    ('arg-swap', r'\((&?[a-z_][\w.]*), (&?[a-z_][\w.]*)\)', r'(\2, \1)'),
+    ('rev-drop', r'\.rev\(\)', ''),
+    ('plus->minus', r' \+ ', ' - '), ('minus->plus', r' - ', ' + '),
+    ('pluseq->minuseq', r' \+= ', ' -= '),
+    ('iter->skip1', r'\.iter\(\)', '.iter().skip(1)'),
+    ('values->skip1', r'\.values\(\)', '.values().skip(1)'),
+    ('into_iter->skip1', r'\.into_iter\(\)', '.into_iter().skip(1)'),
+    ('clone->default', r'([a-z_.]+)\.clone\(\)', 'Default::default()'),
     ('eq->ne', r'==', '!='), ('ne->eq', r'!=', '=='),
     ('and->or', r'&&', '||'), ('or->and', r'\|\|', '&&'),
     ('plus1->plus2', r'\+ 1\b', '+ 2'), ('plus1->plus0', r'\+ 1\b', '+ 0'),
